@@ -17,7 +17,10 @@ import (
 // verifC15Catalogue builds a small catalogue through the real commands: 2 data nodes, 1 database with
 // pt view, 1 retention policy, 1 hash-sharded measurement with a schema, 1 shard group (+ index group),
 // 1 user.
-func verifC15Catalogue() *Data {
+func verifC15Catalogue() *Data { return verifC15CatalogueAt(1700000000) }
+
+// verifC15CatalogueAt: the shard group is created for the given instant (seconds since the epoch).
+func verifC15CatalogueAt(sec int64) *Data {
 	data := &Data{PtNumPerNode: 1}
 	data.CreateDataNode("127.0.0.1:8086", "127.0.0.1:8188", "", "")
 	data.CreateDataNode("127.0.0.2:8086", "127.0.0.2:8188", "", "")
@@ -30,7 +33,7 @@ func verifC15Catalogue() *Data {
 	verifrt.Assert(err == nil, "setup: CreateRetentionPolicy failed")
 	err = data.CreateMeasurement("db", "rp", "m", &proto2.ShardKeyInfo{ShardKey: []string{"h"}, Type: proto.String(influxql.HASH)}, 0, nil, 0, nil, nil, nil)
 	verifrt.Assert(err == nil, "setup: CreateMeasurement failed")
-	err = data.CreateShardGroup("db", "rp", time.Unix(1700000000, 0), util.Hot, config.TSSTORE, 0)
+	err = data.CreateShardGroup("db", "rp", time.Unix(sec, 0), util.Hot, config.TSSTORE, 0)
 	verifrt.Assert(err == nil, "setup: CreateShardGroup failed")
 	return data
 }
@@ -64,7 +67,8 @@ func VerifC15Clone() {
 // measurement version table - also when every measurement of the policy has been dropped, which is when
 // the version table alone decides the physical name of a re-created measurement.
 func VerifC15SnapshotRoundTrip() {
-	data := verifC15Catalogue()
+	// the shard group lies in the present, or ends exactly at the Unix epoch, or starts exactly there
+	data := verifC15CatalogueAt([]int64{1700000000, -1800, 1800}[verifrt.Choose("when", 3)])
 	dropped := verifrt.Bool("dropped")
 	if dropped {
 		err := data.MarkMeasurementDelete("db", "rp", "m")
@@ -186,6 +190,37 @@ func VerifC15ReplicasConverge() {
 		if !ea[1] && len(ra.Measurements) == 2 {
 			verifrt.Reach("two-measurements")
 		}
+	}
+	verifrt.Reach("end")
+}
+
+// VerifC15SnapshotIsolated: raft takes the snapshot object (Clone) first and persists it later, while
+// further commands keep changing the live catalogue in place. The snapshot must not see them: after
+// cloning, every scalar leaf of the live catalogue is overwritten with new arbitrary values, and the
+// clone must still hold the old ones (partition view, nodes, shard and index groups, measurements).
+func VerifC15SnapshotIsolated() {
+	data := verifC15Catalogue()
+	verifrt.Havoc(data, "before")
+	c := data.Clone()
+	oldVer := data.PtView["db"][0].Ver
+	oldStatus := data.PtView["db"][0].Status
+	oldNodeID := data.DataNodes[0].ID
+	rp := data.Databases["db"].RetentionPolicies["rp"]
+	oldShard := rp.ShardGroups[0].Shards[0].ID
+	oldOwner := rp.ShardGroups[0].Shards[0].Owners[0]
+	oldIndex := rp.IndexGroups[0].Indexes[0].ID
+	var oldMst uint64
+	for _, m := range rp.Measurements {
+		oldMst = m.ID
+	}
+	verifrt.Havoc(data, "after") // the live catalogue moves on, in place
+	crp := c.Databases["db"].RetentionPolicies["rp"]
+	verifrt.Assert(c.PtView["db"][0].Ver == oldVer && c.PtView["db"][0].Status == oldStatus, "the snapshot shares its partition view with the live catalogue")
+	verifrt.Assert(c.DataNodes[0].ID == oldNodeID, "the snapshot shares its node list with the live catalogue")
+	verifrt.Assert(crp.ShardGroups[0].Shards[0].ID == oldShard && crp.ShardGroups[0].Shards[0].Owners[0] == oldOwner, "the snapshot shares its shards with the live catalogue")
+	verifrt.Assert(crp.IndexGroups[0].Indexes[0].ID == oldIndex, "the snapshot shares its index groups with the live catalogue")
+	for _, m := range crp.Measurements {
+		verifrt.Assert(m.ID == oldMst, "the snapshot shares its measurements with the live catalogue")
 	}
 	verifrt.Reach("end")
 }
